@@ -382,3 +382,6 @@ func FromBytes(sel uint32, seed uint64) (*Case, error) {
 	}
 	return c, nil
 }
+
+// Rebuild constructs the primitive again from the case's current Key / MacKey slices.
+func (c *Case) Rebuild() error { return c.build() }
